@@ -5,15 +5,15 @@ import random
 
 def _ev(solver, r, minimize, n):
     x = list(r.solution) if r.solution is not None else []
-    fin = all(isinstance(v, (int, float)) and math.isfinite(v) and abs(v) < 1e5 for v in x) and isinstance(r.objective, (int, float)) and \
-        math.isfinite(r.objective) and abs(r.objective) < 1e3
-    ev = {"e": "ret", "solver": solver, "status": r.status.name, "minimize": minimize, "finite": bool(fin), "x4": [0] * n, "obj4": 0, "obj6": 0}
-    if fin and len(x) == n:
+    vals = x + [r.objective]
+    fin = all(isinstance(v, (int, float)) and math.isfinite(v) for v in vals)
+    huge = fin and (any(abs(v) >= 1e5 for v in x) or abs(r.objective) >= 1e3)       # not representable in the 32-bit projection
+    ev = {"e": "ret", "solver": solver, "status": r.status.name, "minimize": minimize, "finite": bool(fin), "huge": bool(huge),
+          "x4": [0] * n, "obj4": 0, "obj6": 0}
+    if fin and not huge:
         ev["x4"] = [int(round(v * 10000)) for v in x]
         ev["obj4"] = int(round(r.objective * 10000))
         ev["obj6"] = int(math.floor(r.objective * 1000000 + 0.5))
-    elif fin:
-        ev["x4"] = [int(round(v * 10000)) for v in x]
     return ev
 
 
@@ -36,7 +36,35 @@ def run_lp(case):
     return {"A": A, "b": b, "c": c, "m": m, "n": n, "events": events, "input": case}
 
 
+def gen_equalities(rng):
+    """one or two equality constraints, each written as a <= row plus the opposite >= row, consistent with a non-negative
+    integer point (phase 1 is needed and ends with several artificial variables basic at level zero)"""
+    n = rng.randint(1, 3)
+    k = rng.randint(1, 2)
+    x0 = [rng.randint(0, 2) for _ in range(n)]
+    A, b = [], []
+    for _ in range(k):
+        row = [rng.randint(-2, 3) for _ in range(n)]
+        if not any(row):
+            row[rng.randrange(n)] = rng.choice([1, 2])
+        rhs = sum(a * x for a, x in zip(row, x0))
+        if rng.random() < 0.15:
+            rhs += rng.choice([-1, 1])          # sometimes inconsistent / shifted
+        A += [row, [-a for a in row]]
+        b += [rhs, -rhs]
+    if len(A) < 4 and rng.random() < 0.5:
+        A.append([rng.randint(0, 2) for _ in range(n)])
+        b.append(rng.randint(1, 3))
+    order = list(range(len(A)))
+    rng.shuffle(order)
+    lim = 3
+    return {"A": [A[i] for i in order][:4], "b": [max(-lim, min(lim, b[i])) for i in order][:4] if False else [b[i] for i in order][:4],
+            "c": [rng.randint(-3, 3) for _ in range(n)], "floats": rng.random() < 0.5}
+
+
 def gen(rng, big=False):
+    if rng.random() < 0.25:
+        return gen_equalities(rng)
     m, n = (rng.randint(1, 4), rng.randint(1, 4)) if big else (rng.randint(1, 3), rng.randint(1, 3))
     lim = 3 if max(m, n) == 4 else 5
     style = rng.random()
